@@ -27,9 +27,9 @@ TOL_BOOT = 1e-6
 # ----------------------------------------------------------------------------------------------
 def generate(seed: int, tier: str = "quick") -> dict:
     rng = seeds.stream(seed, "cfg")
-    spec, cfg = common.draw_system(rng, seed, PROP)
+    spec, cfg = common.draw_system(rng, seed, PROP, dask_eager_prob=0.2)
     # bitwise ambient-sensitivity trial (DESIGN 6.1) on a third of the eager runs of seeded classes
-    cfg["ambient_trial"] = (not cfg["lazy"]) and "random_state" in cfg["params"] and seeds.stream(seed, "trial").random() < 0.33
+    cfg["ambient_trial"] = (not cfg["lazy"]) and (not cfg.get("dask_eager")) and "random_state" in cfg["params"] and seeds.stream(seed, "trial").random() < 0.33
     cfg["ops"] = generate_ops(seeds.stream(seed, "ops"), cfg, spec, tier)
     return cfg
 
@@ -56,6 +56,18 @@ def generate_ops(rng, cfg, spec, tier) -> list[dict]:
         has_rot = True
     while len(ops) < n:
         r = rng.random()
+        if cfg.get("dask_eager") and rng.random() < 0.3:
+            # a task failure interrupts an eager fit on dask-backed data between / inside its scheduler calls; the
+            # object is undefined afterwards - and the next successful fit must be that of a fresh object
+            nxt = rng.choice(["F0", "F1", "F1", "F2"])
+            ops.append({"op": "fit_fault", "fit": nxt, "call": rng.choice([1, 1, 1, 2, 2, 3, 4, 5, 6, 8, 10, 12]), "at": rng.choice([1, 1, 2, 3, 5, 8, 20, 60]),
+                        "exc": rng.choice(["InjectedFault", "MemoryError", "OSError"])})
+            has_rot = False
+            has_boot = False
+            nxt = rng.choice([nxt, "F0", "F1", "F2"])
+            ops.append({"op": "fit", "fit": nxt})
+            cur = nxt
+            continue
         if r < 0.22:
             nxt = rng.choice(["F0", "F1", "F1", "F2"] + (["F3", "F3"] if "F3" in cfg["fits"] else []))
             ops.append({"op": "fit", "fit": nxt})
@@ -326,6 +338,38 @@ def execute(cfg: dict, *, stop_at_first=True, trace=False) -> RunResult:
                 else:
                     counts["failed_fits"] += 1
                     st["m_fit"] = None      # undefined until the next successful fit
+            elif kind == "fit_fault":
+                counts["refits"] += 1 if (st["m_fit"] is not None or counts["failed_fits"]) else 0
+                sim.cfg.permanent_at = int(op["at"])
+                sim.cfg.permanent_exc = op.get("exc", "InjectedFault")
+                sim.cfg.permanent_call = int(op.get("call", 1))
+                sim.cfg.armed_calls = 0
+                out = oracle.capture(models.fit_model, spec, m, cfg["fits"][op["fit"]], env)
+                fired = not out.ok and out.exc_type == sim.cfg.permanent_exc and "injected" in out.exc_msg
+                sim.cfg.permanent_at = None
+                sim.cfg.armed_calls = 0
+                st["r_valid"] = False
+                st["b_valid"] = False
+                res.log.append(f"  fit_fault {op['fit']} call={op['call']} at={op['at']} -> {out.kind()}")
+                if fired:
+                    counts["task_faults"] += 1
+                    counts["fit_faults"] = counts.get("fit_faults", 0) + 1
+                    counts["failed_fits"] += 1
+                    st["m_fit"] = None          # undefined until the next successful fit
+                else:
+                    # the fit issued fewer scheduler calls / tasks than the fault position: an ordinary fit
+                    rm, renv, rout = refs.model(op["fit"], False)
+                    if out.kind() != rout.kind():
+                        violate("H2", f"outcome:{out.kind()}!={rout.kind()}",
+                                f"fit({op['fit']}) on the live object -> {out.kind()} {out.exc_msg[:160]!r}, "
+                                f"on a fresh object -> {rout.kind()} {rout.exc_msg[:160]!r}", op)
+                    elif out.ok:
+                        st["m_fit"] = op["fit"]
+                        st["m_computed"] = bool(cfg["params"].get("compute", True))
+                        probe(op, k=2, inv="H2" if counts["refits"] else "H1")
+                    else:
+                        counts["failed_fits"] += 1
+                        st["m_fit"] = None
             elif kind == "query":
                 tgt = op["target"]
                 if st["m_fit"] is None or (tgt == "r" and not st["r_valid"]) or (tgt == "b" and not st["b_valid"]):
@@ -472,7 +516,7 @@ def execute(cfg: dict, *, stop_at_first=True, trace=False) -> RunResult:
     counts["clock_jumps"] = clock.jumps
     res.stats = counts
     res.coverage = {"history": ",".join(cov["hist"]), "bigrams": sorted(cov["bigrams"]),
-                    "states": sorted(cov["states"]), "cell": f"{spec.name}|{'lazy' if cfg['lazy'] else 'eager'}",
+                    "states": sorted(cov["states"]), "cell": f"{spec.name}|{'lazy' if cfg['lazy'] else ('dask-eager' if cfg.get('dask_eager') else 'eager')}",
                     "interleavings": list(sim.stats.digests)}
     res.log += [f"sched {c['op']} {c['site']} n={c['n']} {c.get('digest', '')}" for c in sim.call_log]
     if trace:
@@ -494,6 +538,8 @@ def _opk(op):
         return f"{k}:{op['target']}"
     if k == "other_fit":
         return f"other_fit:{op['fit']}"
+    if k == "fit_fault":
+        return f"fit_fault:{op['fit']}"
     return k
 
 
